@@ -43,6 +43,8 @@ type Group struct {
 	Ops                           []Op
 	BatchScalarMul                func(base Rep, scalars []*big.Int) []Rep
 	BatchJacToAff                 func(pts []Rep) []Rep
+	Lib                           func(r Rep) any // pointer to a fresh library value (G?Affine, G?Jac, extended) holding r
+	FromLib                       func(p any) Rep
 
 	// MSM (nil for groups without multiexp): points are referenced by index into a pool set once
 	FrBits           int
